@@ -8,7 +8,7 @@ Import ListNotations.
 
 Section Stack.
   Variable A : CsgOps.
-  Variable uniq : nat -> nat -> bool.
+  Variable uniq : heap A -> nat -> bool.
   Variable ovl : (sol A * tr A) -> (sol A * tr A) -> bool.
   Variable sz : (sol A * tr A) -> Z.
   Variable kmax : nat.
